@@ -21,4 +21,4 @@ Separate Extraction
   Wire.at_group_boundary Wire.at_config_value_cut Wire.at_record_boundary
   Wire.delete_nth Wire.in_language Wire.repl_in_language Wire.flags_token_unrecognized Wire.config_error_tolerated
   Wire.in_language_regrouped Wire.repl_flags_token_unrecognized
-  Wire.coord_repl Wire.coord_pcm.
+  Wire.coord_repl Wire.coord_pcm Wire.compact_idx.
